@@ -370,7 +370,9 @@ def lang_configs():
         ("no-binops", mk(binops=[], cmp_binops=[])),
         ("two-part-cmp", mk(cond_jmp="two", jmp_order="to", cmp_binops=[])),
         ("count-gt", mk(count_jmp=">", jmp_order="to")),
-        ("jump-no-time", mk(jmp_order="o")),
+        # ("jump-no-time", mk(jmp_order="o")) is deliberately absent: a jump without a time argument cannot carry
+        # "goto sets the time to the label's time" when the label sits before a time label, and what the game
+        # does then is not documented by truth (see design_notes/coordinator.md)
         ("small-pool", mk(scratch_int=[1002, 1003], scratch_float=[1006])),
         ("pool-1", mk(scratch_int=[1003], scratch_float=[1006], unops=[])),
         ("no-scratch", mk(scratch_int=[], scratch_float=[])),
